@@ -3,6 +3,7 @@ import OsacaVerif.Gen.X86Parser
 import OsacaVerif.Spec.X86Render
 import OsacaVerif.Lemmas.ParseX86File
 import OsacaVerif.Lemmas.ParseX86Line
+import OsacaVerif.Lemmas.ParseX86Tabs
 /-
   C09 — x86 AT&T parser recovers every line and operand exactly as written.
 
@@ -291,30 +292,33 @@ theorem x86_roundtrip_expanded (l : Line) (hv : l.valid = true) :
     parseExpanded (renderLine l) = .ok l.expected :=
   roundtrip_expanded l hv
 
-theorem expandTabs_noTab (t : Txt) (h : 9 ∉ t) : ∀ col, expandTabs col t = t := by
-  induction t with
-  | nil => intro _; rfl
-  | cons c cs ih =>
-    intro col
-    have hc : c ≠ 9 := by intro e; exact h (by simp [e])
-    have hcs : 9 ∉ cs := by intro e; exact h (by simp [e])
-    unfold expandTabs
-    by_cases h2 : c = 10 ∨ c = 13
-    · simp [hc, h2, ih hcs]
-    · simp [hc, h2, ih hcs]
+/-- `str.expandtabs` on a rendered line is the rendering of the same AST under another layout of
+    the domain (each tab of the layout becomes one to eight blanks; tokens contain no tab) -/
+theorem expandTabs_relayout (l : Line) (hv : l.valid = true) (col : Nat) :
+    ∃ l' : Line, l'.valid = true ∧ l'.expected = l.expected ∧
+      expandTabs col (renderLine l) = renderLine l' :=
+  exp_line l hv (exp_expandTabs (renderLine l) col)
 
-/-- **`x86_roundtrip_partial`**: the round trip through `parse_line` itself (which first expands
-    tabs like `str.expandtabs`), for every line of the domain whose rendering contains no tab.
-    What is missing for the full statement is only the commutation of `expandTabs` with rendering
-    (a tab between tokens expands to blanks, i.e. to another layout of the same AST);
-    `x86_roundtrip_expanded` already covers tabs for the stages themselves. -/
-theorem x86_roundtrip_partial (l : Line) (hv : l.valid = true) (hnt : 9 ∉ renderLine l) :
-    parseLine (renderLine l) = .ok l.expected := by
-  unfold parseLine
-  rw [expandTabs_noTab _ hnt 0]
-  exact roundtrip_expanded l hv
+/-- **`x86_roundtrip`** — the property's statement about instruction lines, at full strength:
+    for every instruction AST of the domain (0–4 operands; register names; decimal / hexadecimal
+    immediates of any size with sign; labels as `$label` anywhere or bare in first position; memory
+    references in all seven non-empty displacement/base/index combinations, displacement a signed
+    number or a label, scales 1/2/4/8 with scale 1 written or omitted) and **every layout** (blanks
+    and tabs before the mnemonic, after it, before and after every operand and comma, inside the
+    parentheses, decimal or `0x` notation with either digit case and leading zeros, optional trailing
+    `#` / `//` comment of any words), `parse_line` on the rendered text returns the form with exactly
+    this mnemonic, exactly these operands in order (register names verbatim, immediates and
+    displacements as integers, scale 1 when omitted), no label, no directive, and the comment's words. -/
+theorem x86_roundtrip (l : Line) (hv : l.valid = true) : parseLine (renderLine l) = .ok l.expected :=
+  roundtrip_full l hv
 
-/- TODO-FULL  x86_roundtrip (l : Line) (hv : l.valid = true) : parseLine (renderLine l) = .ok l.expected -/
+/-- and through `parse_file`: a file consisting of rendered lines and blank lines gives exactly these
+    ASTs under the right line numbers (combination of `parseFile_complete` and `x86_roundtrip`) -/
+theorem x86_roundtrip_file (start : Nat) (content : Txt) (i : Nat) (l : Line) (hv : l.valid = true)
+    (hl : (splitLines content)[i]? = some (renderLine l)) (hb : isBlank (renderLine l) = false) :
+    ⟨i + 1 + start, renderLine l, .ok l.expected⟩ ∈ parseFile start content := by
+  have := parseFile_complete start content i (renderLine l) hl hb
+  rwa [x86_roundtrip l hv] at this
 
 /-- the class of a rendered instruction line is `instruction`, and only that -/
 theorem x86_roundtrip_class (l : Line) (hv : l.valid = true) :
@@ -342,7 +346,8 @@ example : parseExpanded (renderLine demo) = .ok
                    .imm (-18446744073709551615), .ident [46, 76, 67, 48]],
       comment := some [76, 76, 86, 77, 45, 77, 67, 65, 45, 66, 69, 71, 73, 78, 32, 120, 61, 49] } :=
   x86_roundtrip_expanded demo (by decide +kernel)
--- the model computes the same on the tab-expanded text (`parse_line` itself)
+-- through `parse_line` itself (tabs expanded first), by the theorem and by evaluating the model
+example : parseLine (renderLine demo) = .ok demo.expected := x86_roundtrip demo (by decide +kernel)
 example : parseLine (renderLine demo) = .ok demo.expected := by decide +kernel
 
 /-- `"mov -8 , (, %rcx,1)"`: a displacement standing alone (negative, blank before the comma) and an
@@ -353,15 +358,15 @@ def demo2 : Line :=
              ({ pre := [32], showScale := true, w4 := [32] }, .mem none none (some [114, 99, 120]) 1 false) ] }
 example : renderLine demo2 = [109, 111, 118, 32, 45, 56, 32, 44, 32, 40, 44, 32, 37, 114, 99, 120, 44, 49, 41] := by decide +kernel
 example : parseLine (renderLine demo2) = .ok demo2.expected :=
-  x86_roundtrip_partial demo2 (by decide +kernel) (by decide +kernel)
+  x86_roundtrip demo2 (by decide +kernel)
 
 /-- `"jmp .L10"` (bare label) and `"ret"` (no operand) -/
 def demo3 : Line := { mn := [106, 109, 112], ops := [({ pre := [32], bare := true }, .ident [46, 76, 49, 48])] }
 def demo4 : Line := { mn := [114, 101, 116] }
 example : parseLine (renderLine demo3) = .ok { mnemonic := some [106, 109, 112], operands := [.ident [46, 76, 49, 48]] } :=
-  x86_roundtrip_partial demo3 (by decide +kernel) (by decide +kernel)
+  x86_roundtrip demo3 (by decide +kernel)
 example : parseLine (renderLine demo4) = .ok { mnemonic := some [114, 101, 116] } :=
-  x86_roundtrip_partial demo4 (by decide +kernel) (by decide +kernel)
+  x86_roundtrip demo4 (by decide +kernel)
 
 /-! ### model knowledge (documented, not part of the property) -/
 
